@@ -261,6 +261,9 @@ def _child_command(world, cmd, probe=None):
     events = []
     _install_audit(events)
     state0 = {}
+    if cmd.get("setup"):
+        sv, sf, ss = cmd["setup"]        # the environment of a shell in which `setup -f sf name sv` was run
+        os.environ["SETUP_" + cmd["name"].upper()] = "%s %s -f %s -Z %s" % (cmd["name"], sv, sf, world.stacks[ss])
     if cmd.get("interpose"):
         cmd["interpose"](cmd, world, events, state0)
     e = common.new_eups(flavor=cmd.get("flavor", "Linux"), force=bool(cmd.get("force")),
@@ -433,12 +436,21 @@ def gen_history(rng, ncmds, users=("A",), crash=0.0, rmcache=0.0, query=0.0, noa
             c.update(op="undeclare", version=None if kind.endswith("_nov") else v, stack=stack,
                      tag=t if kind in ("untag", "untag_nov", "vat", "vat_nov") else None,
                      vat=kind in ("vat", "vat_nov"))
+            if kind in ("undeclare", "undeclare_nov", "vat") and rng.random() < 0.1:
+                c["setup"] = [v if rng.random() < 0.8 else rng.choice(VERS), f if rng.random() < 0.7 else rng.choice(FLAVS),
+                              rng.randrange(NSTACKS)]
+                if rng.random() < 0.3:
+                    c["force"] = True
             if kind in ("undeclare", "vat") and (n, v, f) in known and rng.random() < 0.8:
                 known.remove((n, v, f))
         elif kind == "remove":
             c.update(op="remove", version=v)
             if rng.random() < 0.3:
                 c["recursive"] = True
+            if rng.random() < 0.1:
+                c["setup"] = [v, f if rng.random() < 0.7 else rng.choice(FLAVS), rng.randrange(NSTACKS)]
+                if rng.random() < 0.3:
+                    c["force"] = True
             if (n, v, f) in known and rng.random() < 0.8:
                 known.remove((n, v, f))
         elif kind == "assign":
@@ -554,7 +566,7 @@ def model_request(case, pinned=False, m="c06"):
             cmds.append({"op": "rmcache", "user": UID[c["user"]], "stack": c["stack"], "flavor": c["flavor"]})
             continue
         d = {"op": c["op"], "user": UID[c.get("user", "A")], "self": c.get("flavor", "Linux")}
-        for k in ("name", "version", "dir", "stack", "tag", "force", "noaction", "vat", "crash", "recursive"):
+        for k in ("name", "version", "dir", "stack", "tag", "force", "noaction", "vat", "crash", "recursive", "setup"):
             if k in c:
                 d[k] = c[k]
         if c.get("table") == "none":
